@@ -1,8 +1,58 @@
-/- Driver ops for C01 (none yet). -/
-import Xrfmv.Drv.Common
+/- Driver ops for C01: the stack traversal / restore on given routing decisions, and the leaf kernel expansion
+(kernel values from the C05 model, summed by `HardRoute.kexp`). -/
+import Xrfmv.Drv.C05
+import Xrfmv.Model.HardRoute
+
+open Lean Xrfmv.Drv
 
 namespace Xrfmv.Drv.C01
+open Xrfmv.HardRoute Xrfmv.Kernel
 
-def ops : List (String × Handler) := []
+/-- `{"leaf": id}` | `{"node": id, "l": …, "r": …}` -/
+partial def parseTree (j : Json) : Except String (Tree Nat Nat) :=
+  match j.getObjValAs? Nat "leaf" with
+  | .ok id => pure (.leaf id)
+  | .error _ => do
+    let id ← j.getObjValAs? Nat "node"
+    let l ← parseTree (← j.getObjVal? "l")
+    let r ← parseTree (← j.getObjVal? "r")
+    pure (.node id l r)
+
+/-- `{"op":"groups","tree":…,"n":rows,"left":{nodeId:[bool per row]}}`: runs the stack machine on rows `0..n-1` with
+the given goes-left decisions; returns the groups in order, the leaf each row is predicted by after `restore`, and the
+recursive routing for comparison. -/
+def opGroups : Handler := fun j => do
+  let t ← parseTree (← j.getObjVal? "tree")
+  let n ← j.getObjValAs? Nat "n"
+  let left ← j.getObjVal? "left"
+  let goes : Nat → Nat → Bool := fun g x =>
+    match left.getObjValAs? (Array Bool) (toString g) with
+    | .ok a => a.getD x false
+    | .error _ => false
+  let xs := List.range n
+  let gs := groups goes t xs
+  let restored := predictHard goes (fun m _ => m) t xs
+  let routed := xs.map (route goes t)
+  pure <| Json.mkObj [("groups", toJson (gs.map fun g => (g.2, g.1.map Prod.fst))),
+    ("restored", toJson restored), ("routed", toJson routed)]
+
+/-- `{"op":"expansion", <kernel spec as for kernel_matrix>, "transform":…, "x": rows, "z": centers, "alpha":[[bits]]}` →
+`out[r][c] = Σ_i alpha[i][c] · k(x_r, z_i)`. -/
+def opExpansion : Handler := fun j => do
+  let K ← C05.getSpec j
+  if !K.accepted then throw "bad-op: parameters rejected by the constructor (AssertionError)"
+  let (xs, zs, d) ← C05.getPoints j
+  let T ← C05.getTransform j d
+  let alpha ← getFss j "alpha"
+  if alpha.size != zs.length then throw "bad-op: one coefficient row per center"
+  let nout := (alpha.getD 0 #[]).size
+  let Km := matrixFast K T xs zs
+  let out := Km.map fun krow =>
+    (List.range nout).map fun c =>
+      kexp (fun (_ : Nat) (i : Nat) => krow.getD i 0.0) (List.range zs.length)
+        (alpha.toList.map fun a => a.getD c 0.0) 0
+  pure <| Json.mkObj [("out", fssJson (C05.toArr out))]
+
+def ops : List (String × Handler) := C05.ops ++ [("groups", opGroups), ("expansion", opExpansion)]
 
 end Xrfmv.Drv.C01
